@@ -889,6 +889,12 @@ def X6(ctx: Ctx) -> RuleResult:
                 res = ctx.model.resolve_name(fi.module, node.value.id)
                 if res and res[0] == 'const' and (res[1].name, res[2]) in mut_globals:
                     r.fail(f'{fi.qualname}:returns {node.value.id}', f'returns the module-level container {res[1].name}.{res[2]}: callers that update it change every later result', f'{fi.module.relpath}:{node.lineno}')
+    # memoisation keyed by == (which ignores metadata and identity) is shared state across calls
+    for fi in ctx.model.all_functions():
+        for d in fi.decorators:
+            base = d.split('(')[0].split('.')[-1]
+            if base in ('lru_cache', 'cache', 'cached_property', 'memoize', 'memoized'):
+                r.fail(f'{fi.qualname}:@{base}', f'{fi.qualname} is memoised with @{base}: results are shared between equal-but-distinct arguments (equality ignores metadata and identity) and between calls', fi.where)
     r.counts['module-level mutable containers'] = len(mut_globals)
     r.counts['global statements'] = g
     r.floor('transformer/parser methods', n, 50)
